@@ -150,8 +150,15 @@ func (na *nilAnalysis) nonNil(fn *ssa.Function, v ssa.Value, at ssa.Instruction,
 		return true
 	}
 	switch x := v.(type) {
-	case *ssa.MakeInterface, *ssa.Alloc, *ssa.MakeClosure, *ssa.Function, *ssa.MakeMap, *ssa.MakeSlice:
+	case *ssa.MakeInterface:
+		// an interface holding a nil pointer is "non-nil" for comparisons but panics on use:
+		// the wrapped pointer itself has to be non-nil
+		if _, isPtr := x.X.Type().Underlying().(*types.Pointer); isPtr {
+			return na.nonNil(fn, x.X, at, depth+1)
+		}
 		return true
+	case *ssa.Alloc, *ssa.MakeClosure, *ssa.Function, *ssa.MakeMap, *ssa.MakeSlice, *ssa.FieldAddr, *ssa.IndexAddr:
+		return true // addresses of locals, fields and elements are never nil (a nil base is a separate sink)
 	case *ssa.Const:
 		return !x.IsNil()
 	case *ssa.Parameter:
@@ -482,6 +489,29 @@ func checkC10(c *Ctx) {
 					if !na.nonNil(fn, cc.Value, in, 0) {
 						per[name] = append(per[name], finding{name, p.InstrPos(in), "method " + cc.Method.Name() + " invoked on signature " + shortVal(na.flow(fn).K.Key(cc.Value)) + " which may be nil"})
 					}
+				}
+			case *ssa.MakeInterface:
+				// typed nil: a nil pointer wrapped into a signature interface defeats every `sig != nil` guard downstream
+				if _, isPtr := x.X.Type().Underlying().(*types.Pointer); isPtr && (na.isSig(x.Type()) || strings.HasSuffix(x.Type().String(), "hotstuff.IDSet")) {
+					count[name]++
+					if !na.nonNil(fn, x.X, in, 0) {
+						per[name] = append(per[name], finding{name, p.InstrPos(in), "possibly nil pointer " + shortVal(na.flow(fn).K.Key(x.X)) + " converted to the " + shorten(x.Type().String()) + " interface (a typed nil passes every `!= nil` guard and panics on first use)"})
+					}
+				}
+			case *ssa.SliceToArrayPointer:
+				// slice-to-array conversion panics when the slice is shorter than the array
+				count[name]++
+				fl := na.flow(fn)
+				want := ""
+				if pt, ok := x.Type().Underlying().(*types.Pointer); ok {
+					if at, ok := pt.Elem().Underlying().(*types.Array); ok {
+						want = "c:" + itoa(int(at.Len()))
+					}
+				}
+				lenOf := func(k string) bool { return strings.HasPrefix(k, "builtin len("+fl.K.Key(x.X)+")") }
+				facts := fl.At(in)
+				if !(hasCmp(facts, "==", lenOf, is(want)) || hasCmp(facts, "<=", is(want), lenOf)) {
+					per[name] = append(per[name], finding{name, p.InstrPos(in), "slice " + shortVal(fl.K.Key(x.X)) + " converted to an array of length " + strings.TrimPrefix(want, "c:") + " without a length check (panics for a shorter slice)"})
 				}
 			case *ssa.FieldAddr:
 				if isPbPtr(x.X.Type()) {
